@@ -94,8 +94,11 @@ def check_case(case):
     path, seed, find_gaps, with_saenger = case
     rng = random.Random(seed)
     s = G.load(path)
-    if rng.random() < 0.5:
+    u0 = rng.random()
+    if u0 < 0.4:
         s = with_icode_twins(s, rng)
+    elif u0 < 0.6:
+        s = G.reorder(s, rng, "interleaved")  # a chain id that re-appears after another chain's residues
     nts, entries = make_pairs(s, rng)
     if not entries:
         return []
